@@ -88,7 +88,8 @@ def viol_from_record(r, workload):
     f = loc.split(":")[0].replace("/repo/", "")
     msg = r["detail"].split(" @ ")[0]
     import re
-    msg = re.sub(r"[0-9]+", "N", msg)[:80]
+    msg = re.sub(r"`[^`]*`|'[^']*'|\"[^\"]*\"", "_", msg)
+    msg = re.sub(r"[0-9]+", "N", msg)[:60]
     return {"sig": [kind, f, msg], "what": "%s on input %r: %s" % (kind, r["input"], r["detail"]), "replay": {"steps": [{"op": "exec", "ctx": 0, "text": r["input"], "want": "ed"}, {"op": "tokenize", "text": r["input"]}]}}
 
 
